@@ -67,6 +67,7 @@ e9b2377 C09
 f57bba0 C07
 cab7a79 C11
 3c606c4 C11
+dc646d3 C09
 L
 fi
 mv $out.tmp $out
